@@ -239,8 +239,8 @@ theorem assemble_not_diverged (fs : Files) (lines : List Str) : assemble fs line
   unfold assemble
   rcases parseLines_cases lines with ⟨parsed, h⟩ | h <;> rw [h]
   · dsimp only
-    cases h1 : expand fs 64 parsed with
-    | diverged => exact absurd h1 (expand_not_diverged _ _ _)
+    cases h1 : expand fs 64 [] parsed with
+    | diverged => exact absurd h1 (expand_not_diverged _ _ _ _)
     | ok ss0 =>
       dsimp only
       cases buildSymTab ss0 0 [] with
